@@ -29,6 +29,9 @@ type Body struct {
 	Keys []KeyT `json:"keys,omitempty"`
 	// deterministic failure at this block number (0 = never)
 	FailAt uint64 `json:"fail_at,omitempty"`
+	// the module makes a host call that fails when the execution context is cancelled, with an error that does not wrap
+	// the context's (what an RPC extension answers: "rpc error: code = Canceled ...")
+	CtxSensitive bool `json:"ctx_sensitive,omitempty"`
 }
 
 type OpT struct {
